@@ -645,7 +645,8 @@ def replay(pid, path, scratch):
     fi = d.get("failing_input") or {}
     if fi.get("found"):
         from vx import bounded
-        br = bounded.run(d["unit"], [d["function"]], REPO, scratch)
+        hfn = load_props().get(pid, {}).get("harness_alias", {}).get(d["unit"], {}).get(d["function"], d["function"])
+        br = bounded.run(d["unit"], [hfn], REPO, scratch)
         print("recorded failing input: %s   [%s]" % (fi.get("input"), fi.get("clause")))
         if br["ran"]:
             for fl in br["failures"][:5]:
@@ -653,7 +654,7 @@ def replay(pid, path, scratch):
             if br["failures"]:
                 rc = 1
             else:
-                print("real code, current tree: the bounded harness finds no failing input for %s" % d["function"])
+                print("real code, current tree: the bounded harness finds no failing input for %s" % hfn)
         else:
             print("bounded harness did not run: " + br.get("note", ""))
             rc = 2
